@@ -237,6 +237,20 @@ func (ns *normState) planRenames() editSet {
 				if len(cands) == 1 && nSame == 1 {
 					mrens = append(mrens, mren{short, cands[0].Name(), cm.Name, cm.Sig})
 					ns.notes = append(ns.notes, fmt.Sprintf("interface method %s.%s.%s is treated as %s (only unknown method with signature %s)", short, iname, cands[0].Name(), cm.Name, cm.Sig))
+				} else if len(cands) == nSame && nSame > 1 {
+					// several renamed methods of one signature: paired in source order
+					sort.Slice(cands, func(i, j int) bool { return cands[i].Pos() < cands[j].Pos() })
+					k := 0
+					for _, cm2 := range cms {
+						if actual[cm2.Name] != nil || cm2.Sig != cm.Sig {
+							continue
+						}
+						if cm2.Name == cm.Name {
+							mrens = append(mrens, mren{short, cands[k].Name(), cm.Name, cm.Sig})
+							ns.notes = append(ns.notes, fmt.Sprintf("interface method %s.%s.%s is treated as %s (source order among %d unknown methods with signature %s)", short, iname, cands[k].Name(), cm.Name, nSame, cm.Sig))
+						}
+						k++
+					}
 				}
 			}
 		}
